@@ -40,9 +40,35 @@ def opG : FsOp → List Int
 /-- chunks of the given sizes with dummy content -/
 def dummyChunks (sizes : List Int) : List Bytes := sizes.map fun n => List.replicate n.toNat 0
 
-def opSaveOps (it : Int) (pinned : Bool) (sizes : List Int) : String :=
-  let ops := if pinned then saveOpsPinned it (dummyChunks sizes) else saveOps it (dummyChunks sizes)
-  okG (ops.map opG)
+def kindOf : Int → FKind
+  | 0 => .model
+  | 1 => .modelTmp
+  | 2 => .last
+  | _ => .lastTmp
+
+/-- statement table as triples `code kind kind'`: 1 openW, 2 writePayload, 3 writeLabel, 4 closeF, 5 replace;
+an empty group stands for the hand-written `saveTable` -/
+def parseTable : List Int → Option (List Stmt)
+  | [] => some []
+  | c :: a :: b :: r =>
+    (parseTable r).bind fun tl =>
+      (match c with
+        | 1 => some (Stmt.openW (kindOf a))
+        | 2 => some (Stmt.writePayload (kindOf a))
+        | 3 => some (Stmt.writeLabel (kindOf a))
+        | 4 => some (Stmt.closeF (kindOf a))
+        | 5 => some (Stmt.replace (kindOf a) (kindOf b))
+        | _ => none).map (· :: tl)
+  | _ => none
+
+def tableOf (pinned : Bool) (codes : List Int) : Option (List Stmt) :=
+  if pinned then some saveTablePinned else
+  match codes with
+  | [] => some saveTable
+  | _ => parseTable codes
+
+def opSaveOps (it : Int) (t : List Stmt) (sizes : List Int) : String :=
+  okG ((opsOf t it (dummyChunks sizes)).map opG)
 
 def fmtLoad : LoadResult Nat → String
   | .none => "ok 0"
@@ -56,9 +82,9 @@ def triples : List Int → Option (List (Int × Nat × Nat))
   | it :: sid :: size :: r => (triples r).map ((it, sid.toNat, size.toNat) :: ·)
   | _ => none
 
-def opCrash (pinned : Bool) (prev : List (Int × Nat × Nat)) (new : Int × Nat × Nat) (sizes : List Int)
+def opCrash (t : List Stmt) (prev : List (Int × Nat × Nat)) (new : Int × Nat × Nat) (sizes : List Int)
     (n : Nat) (m : Option Nat) : String :=
-  let sv := if pinned then saveOpsPinned else saveOps
+  let sv := opsOf t
   let d := prev.foldl (fun d (it, sid, size) => run d (sv it [toyEncode sid size])) Dir.empty
   let (it, sid, size) := new
   let ops := sv it (chunk (toyEncode sid size) (sizes.map Int.toNat))
@@ -124,22 +150,32 @@ def decSnap (b : Bytes) : Option ToySnap :=
       | _ => none
   | [] => none
 
-def mkRun (c : ToyCfg) (ckSteps : Nat) (pinnedKill : Bool) : Run Toy.Vec (Option Toy.Vec) Toy.Vec Toy.Batch Rat Unit :=
-  { ops := Toy.ops c.d c.mu, lrAt := c.lrAt, cfg := { k := c.k }, batch := c.batch, init := c.init,
+def mkRun (c : ToyCfg) (ckSteps : Nat) (pinnedKill : Bool) (t : List Stmt) :
+    Run Toy.Vec (Option Toy.Vec) Toy.Vec Toy.Batch Rat Unit :=
+  { saveTbl := t, ops := Toy.ops c.d c.mu, lrAt := c.lrAt, cfg := { k := c.k }, batch := c.batch, init := c.init,
     total := c.total, ckSteps := ckSteps, encode := fun s => [encSnap s], decode := decSnap,
     killLabel := if pinnedKill then killLabelPinned else killLabel }
 
-/-- statement-boundary crash points of a save with a single payload chunk of `len` bytes:
-0 tmp opened, 1 half the payload written, 2 tmp complete and closed, 3 after the first replace,
-4 last tmp written, 5 complete -/
-def crashPoint (p len : Nat) : Nat × Option Nat :=
+/-- crash points of a save as the harness produces them on the real code, for any table: 0 the payload temporary is
+open and empty (everything before its first write is done), 1 half of the first payload write, 2 just before the
+first `os.replace`, 3 just after it, 4 just before the second, 5 after it -/
+def crashPoint (ops : List FsOp) (p : Nat) : Nat × Option Nat :=
+  let isW (o : FsOp) : Bool := match o with
+    | .write (.modelTmp _) _ | .write (.model _) _ => true
+    | _ => false
+  let isR (o : FsOp) : Bool := match o with
+    | .replace _ _ => true
+    | _ => false
+  let w := ops.findIdx isW
+  let r1 := ops.findIdx isR
+  let r2 := r1 + 1 + (ops.drop (r1 + 1)).findIdx isR
   match p with
-  | 0 => (1, none)
-  | 1 => (1, some (len / 2))
-  | 2 => (3, none)
-  | 3 => (4, none)
-  | 4 => (7, none)
-  | _ => (8, none)
+  | 0 => (w, none)
+  | 1 => (w, some 1)
+  | 2 => (r1, none)
+  | 3 => (r1 + 1, none)
+  | 4 => (r2, none)
+  | _ => (r2 + 1, none)
 
 def parseStops (r : Run Toy.Vec (Option Toy.Vec) Toy.Vec Toy.Batch Rat Unit) : List Int → Option (List Stop)
   | [] => some []
@@ -148,8 +184,8 @@ def parseStops (r : Run Toy.Vec (Option Toy.Vec) Toy.Vec Toy.Batch Rat Unit) : L
       (match kind with
         | 1 => Stop.vanishAfter j.toNat
         | 2 => Stop.killDuring j.toNat
-        | 3 => -- the payload length does not matter for the verdict: any strict prefix is unloadable
-          let (n, m) := crashPoint p.toNat 8
+        | 3 => -- the payload content does not matter for the crash point: any strict prefix is unloadable
+          let (n, m) := crashPoint (opsOf r.saveTbl 0 [[0, 0, 0, 0]]) p.toNat
           Stop.crashInSave j.toNat n m
         | _ => Stop.finish) :: tl
   | _ => none
@@ -159,11 +195,11 @@ def latestLabel (r : Run Toy.Vec (Option Toy.Vec) Toy.Vec Toy.Batch Rat Unit) (d
   | .ok it _ => it
   | _ => -1
 
-def opTrain (c : ToyCfg) (ckSteps : Nat) (pinnedKill : Bool) (stops : List Int) : String :=
+def opTrain (c : ToyCfg) (ckSteps : Nat) (pinnedKill : Bool) (t : List Stmt) (stops : List Int) : String :=
   match c.reject with
   | some e => "err " ++ e
   | none =>
-    let r := mkRun c ckSteps pinnedKill
+    let r := mkRun c ckSteps pinnedKill t
     match parseStops r stops with
     | none => "err BadOp"
     | some sts => Id.run do
@@ -184,20 +220,24 @@ def opTrain (c : ToyCfg) (ckSteps : Nat) (pinnedKill : Bool) (stops : List Int) 
 
 def step (op : String) (gs : List (List Int)) : String :=
   match op, gs with
-  | "saveops", [[it, pinned], sizes] => opSaveOps it (pinned == 1) sizes
-  | "crash", [[pinned], prev, [it, sid, size], sizes, [n, m]] =>
-    match triples prev with
-    | some pv => opCrash (pinned == 1) pv (it, sid.toNat, size.toNat) sizes n.toNat (if m < 0 then none else some m.toNat)
+  | "saveops", [[it, pinned], sizes, tbl] =>
+    match tableOf (pinned == 1) tbl with
+    | some t => opSaveOps it t sizes
     | none => "err BadOp"
+  | "crash", [[pinned], prev, [it, sid, size], sizes, [n, m], tbl] =>
+    match triples prev, tableOf (pinned == 1) tbl with
+    | some pv, some t =>
+      opCrash t pv (it, sid.toNat, size.toNat) sizes n.toNat (if m < 0 then none else some m.toNat)
+    | _, _ => "err BadOp"
   | "dirload", [last, files] =>
     match quads files with
     | some fs => opDirLoad last fs
     | none => "err BadOp"
   | "lr", [hdr, rats, ms] => opLr hdr rats ms
-  | "train", [hdr, mu, sched, ms, xs, ys, w0, stops] =>
-    match parseToy hdr mu sched ms xs ys w0 with
-    | some c => opTrain c (hdr.getD 4 1).toNat (hdr.getD 5 0 == 1) stops
-    | none => "err BadOp"
+  | "train", [hdr, mu, sched, ms, xs, ys, w0, stops, tbl] =>
+    match parseToy hdr mu sched ms xs ys w0, tableOf false tbl with
+    | some c, some t => opTrain c (hdr.getD 4 1).toNat (hdr.getD 5 0 == 1) t stops
+    | _, _ => "err BadOp"
   | _, _ => "err BadOp"
 
 end DirectVerif.Driver.C15
